@@ -57,6 +57,13 @@ class PendingNamedExpr(PendingExprGeneric[NamedExpr]):
 
     def get_result(self) -> expr:
         assert self.value is not None
+        for scope in reversed(self.nsp.comp_stack):
+            if isinstance(scope, PendingLambda):
+                # inside a lambda the target is a local variable of that lambda
+                return NamedExpr(
+                    target=Name(id=self.node.target.id, ctx=Store()),
+                    value=self.value,
+                )
         result = self.nsp.get_assign(self.node.target.id, self.value)
         if not isinstance(result, NamedExpr):
             result = Subscript(
@@ -186,6 +193,16 @@ class PendingLambda(PendingExprGeneric[Lambda]):
         for _arg in (args.vararg, args.kwarg):
             if _arg is not None:
                 self.target_names.add(_arg.arg)
+        # so are the targets of assignment expressions in its body
+        # (those of nested lambdas belong to the nested lambda)
+        pending = [self.node.body]
+        while pending:
+            _node = pending.pop()
+            if isinstance(_node, Lambda):
+                continue
+            if isinstance(_node, NamedExpr):
+                self.target_names.add(_node.target.id)
+            pending.extend(iter_child_nodes(_node))
         self.nsp.comp_stack.append(self)
         self.pushed = True
         self.converted_dict["body"] = yield self.node.body
